@@ -22,17 +22,17 @@ type Ctx struct {
 	ReplayDir string
 	Start     time.Time
 
-	Evals       int
-	Distinct    map[string]bool // distinct non-trivial case fingerprints
-	Dist        map[string]int  // input distribution counters
-	Samples     []interface{}
-	Violations  int
-	Rule        string
-	ImplTraces  int
-	KnownHits   map[string]bool
-	CorrBroken  []string // correspondence breaks not (yet) turned into a failing input
-	KnownPath   string
-	KnownDone   bool
+	Evals      int
+	Distinct   map[string]bool // distinct non-trivial case fingerprints
+	Dist       map[string]int  // input distribution counters
+	Samples    []interface{}
+	Violations int
+	Rule       string
+	ImplTraces int
+	KnownHits  map[string]bool
+	CorrBroken []string // correspondence breaks not (yet) turned into a failing input
+	KnownPath  string
+	KnownDone  bool
 }
 
 func NewCtx(prop, tier string, seed int64, driver, scratch, replayDir string) *Ctx {
